@@ -27,9 +27,13 @@ type searchSeg struct {
 	N    int         `json:"n"`
 	Runs []searchRun `json:"runs"`
 	Big  string      `json:"big"` // non-empty: a large pruned search (predicate name) judged relationally, see runBig
+	M    int         `json:"m"`   // Big == "count": the number of shards of the unpruned search whose yields are only counted
 }
 
 func (s searchSeg) key() string {
+	if s.Big == "count" {
+		return fmt.Sprintf("SearchCount(n=%d,m=%d)", s.N, s.M)
+	}
 	if s.Big != "" {
 		return fmt.Sprintf("SearchBig(n=%d,%s)", s.N, s.Big)
 	}
@@ -116,6 +120,39 @@ func isoPerm(a, b adjG) []int {
 		return p
 	}
 	return nil
+}
+
+// runCount: the m shards of the unpruned search on n vertices, in parallel goroutines; only the number of yields of every shard and the
+// number of edges they carry are kept (12 005 168 graphs for n = 10). Judged against the known number of isomorphism classes.
+func runCount(n, m int) tr.E {
+	counts := make([]int, m)
+	edges := make([]int, m)
+	var wg sync.WaitGroup
+	results := make([]string, m)
+	for a := 0; a < m; a++ {
+		wg.Add(1)
+		go func(a int) {
+			defer wg.Done()
+			results[a] = obs.Safe(func() {
+				it := search.All(n, a, m)
+				for it.Next() {
+					counts[a]++
+					edges[a] += it.Value().M()
+				}
+			})
+		}(a)
+	}
+	wg.Wait()
+	res := "ok"
+	for _, x := range results {
+		if x != "ok" {
+			res = x
+		}
+	}
+	if n > 10 { // the edge sums no longer fit the 32-bit integers of TLC; the acceptor uses them for n <= 10 only
+		edges = make([]int, m)
+	}
+	return tr.E{"ev": "Count", "n": n, "m": m, "pred": "none", "place": "none", "counts": counts, "edges": edges, "res": res}
 }
 
 // runBig: preprune / prune / sharded preprune at a size where TLC cannot canonise every graph.  Judged by:
@@ -442,10 +479,12 @@ func searchGrid(c *Ctx) []searchSeg {
 		// parents of more than 12 / 16 vertices (sort and bit-mask paths of the augmentation step), counts judged by closed forms
 		{N: 13, Big: "maxdeg2"}, {N: 14, Big: "maxdeg1"}, {N: 18, Big: "maxdeg1"}, {N: 19, Big: "maxdeg1"},
 		// cells of more than 20 vertices (merge phase of the refinement sort): at most 3 edges on 21 / 22 vertices, 9 classes
-		{N: 21, Big: "maxedges3"}, {N: 22, Big: "maxedges3"}}
+		{N: 21, Big: "maxedges3"}, {N: 22, Big: "maxedges3"},
+		// the whole unpruned search on 9 and 10 vertices, counted (a parent is canonical-deleted through deep orbit forests only from n = 10 on)
+		{N: 9, Big: "count", M: 5}, {N: 10, Big: "count", M: 16}}
 	if c.Thorough() {
 		bigs = append(bigs, searchSeg{N: 11, Big: "forest"}, searchSeg{N: 12, Big: "maxdeg2"}, searchSeg{N: 10, Big: "bipartite"}, searchSeg{N: 9, Big: "cograph"}, searchSeg{N: 11, Big: "trianglefree"},
-			searchSeg{N: 14, Big: "maxdeg2"}, searchSeg{N: 15, Big: "maxdeg2"}, searchSeg{N: 22, Big: "maxdeg1"}, searchSeg{N: 33, Big: "maxdeg1"})
+			searchSeg{N: 14, Big: "maxdeg2"}, searchSeg{N: 15, Big: "maxdeg2"}, searchSeg{N: 22, Big: "maxdeg1"}, searchSeg{N: 33, Big: "maxdeg1"}, searchSeg{N: 11, Big: "count", M: 16})
 	}
 	segs = append(segs, bigs...)
 	return segs
@@ -474,6 +513,11 @@ func driveC03(c *Ctx) {
 	runs := 0
 	for _, s := range segs {
 		w := set.Begin(s.key(), tr.E{"input": s})
+		if s.Big == "count" {
+			w.Emit(runCount(s.N, s.M))
+			runs++
+			continue
+		}
 		if s.Big != "" {
 			w.Emit(runBig(s.N, s.Big))
 			runs++
